@@ -234,7 +234,7 @@ func (r *relay) relayFrames(closing chan bool, sessionDone chan struct{}) error 
 // It gives up when stop is closed or after timeout. It is called once the source has ended its
 // stream of frames in good order, so that what the source sent before it left is not lost just
 // because the destination reads more slowly than the source wrote.
-func (r *relay) drain(stop chan bool, timeout time.Duration) {
+func (r *relay) drain(stop chan bool, timeout time.Duration) (flushed bool) {
 	deadline := time.NewTimer(timeout)
 	defer deadline.Stop()
 	poll := time.NewTicker(drainPollInterval)
@@ -242,7 +242,7 @@ func (r *relay) drain(stop chan bool, timeout time.Duration) {
 	for {
 		select {
 		case <-stop:
-			return
+			return false
 		default:
 		}
 		if blocked, known := r.hasWindowBlockedFrames(); known && !blocked {
@@ -252,23 +252,24 @@ func (r *relay) drain(stop chan bool, timeout time.Duration) {
 			select {
 			case r.output <- m:
 			case <-stop:
-				return
+				return false
 			case <-deadline.C:
-				return
+				return false
 			}
 			select {
 			case <-m.done:
+				return true
 			case <-stop:
 			case <-deadline.C:
 			}
-			return
+			return false
 		}
 		select {
 		case <-poll.C:
 		case <-stop:
-			return
+			return false
 		case <-deadline.C:
-			return
+			return false
 		}
 	}
 }
